@@ -327,6 +327,27 @@ def r04_5(ctx: Ctx):
     ctx.floor(rid, 'SearchDataItem allocation sites', n, 2)
 
 
+def evaluated_at(ctx: Ctx, p, value):
+    """The coordinates at which the objective was evaluated to produce `value` on path p: the argument of the
+    (opaque) probing routine, or - when that routine is inlined - the coordinates of the fresh Point handed to
+    Problem.Calculate whose holder's .value this is."""
+    ce = C.call_event_of_result(p, value)
+    if ce is not None and ce.d['args']:
+        return ce.d['args'][0]
+    va = value.single_atom() if isinstance(value, RF) else None
+    if isinstance(va, tuple) and len(va) == 4 and va[0] == 'attr' and va[2] == 'value':
+        roles = C.roles_of(ctx)
+        pcs = roles.problem_calcs
+        for e in p.events:
+            if e.kind == 'call' and not e.d.get('inlined') and any(c in e.d['callees'] for c in pcs):
+                a0, a1 = C.arg(e, 0, 'point'), C.arg(e, 1, 'functionValue')
+                if va[1] in (key_of(e.d['result']), key_of(a1) if a1 is not None else None):
+                    ne = C.new_event_of(p, a0) if a0 is not None else None
+                    if ne is not None:
+                        return C.arg(ne, 0, 'floatVariables')
+    return None
+
+
 TRIAL_FIELDS = {'point', 'floatVariables', 'discreteVariables', 'value', 'functionValues',
                 '_SearchDataItem__z', '_SearchDataItem__index', '_SearchDataItem__x'}
 
@@ -381,15 +402,20 @@ def r04_6(ctx: Ctx):
     ex = ctx.explorer()
     n2 = 0
     for p in C.normal_paths(ex.explore(rf)):
-        pts = [s for s in p.stores() if s.d['tkind'] == 'attr' and s.d['field'] == 'floatVariables']
-        vals = [s for s in p.stores() if s.d['tkind'] == 'attr' and s.d['field'] == 'value']
+        def on_existing(s) -> bool:
+            # stores into objects created on this very path (constructors of the probe's Point / holder, inlined)
+            # do not rewrite a trial
+            b = s.d['base'].single_atom() if isinstance(s.d['base'], RF) else None
+            return not (isinstance(b, tuple) and b and b[0] == 'fresh')
+        pts = [s for s in p.stores() if s.d['tkind'] == 'attr' and s.d['field'] == 'floatVariables' and on_existing(s)]
+        vals = [s for s in p.stores() if s.d['tkind'] == 'attr' and s.d['field'] == 'value' and on_existing(s)]
         if not pts and not vals:
             continue
         n2 += 1
         ok = len(pts) == 1 and len(vals) == 1
         if ok:
-            ce = C.call_event_of_result(p, vals[0].d['value'])
-            ok = ce is not None and ce.d['args'] and key_of(ce.d['args'][0]) == key_of(pts[0].d['value']) and \
+            at = evaluated_at(ctx, p, vals[0].d['value'])
+            ok = at is not None and key_of(at) == key_of(pts[0].d['value']) and \
                 p.events.index(pts[0]) < p.events.index(vals[0])
             # same trial: the holder belongs to the trial whose point is rewritten
             if ok:
@@ -449,7 +475,7 @@ def r04_7(ctx: Ctx):
                   f'(and every other trial or solver using it) changes with it, so a reported value no longer is the '
                   f'objective at the reported point',
                   key=f'{rid}::{o.site.split(":")[0]}::foreign-point::{hazard[0].site if hazard else ""}')
-    ctx.floor(rid, 'search items created by the library', n, 2)
+    ctx.floor(rid, 'search items created by the library', n, 1)
 
 
 def check(ctx: Ctx):
